@@ -21,7 +21,7 @@ func init() {
 	register(&Prop{
 		ID:       "C13",
 		Category: "model_checking",
-		Rule: "first life: a stream in {70 KB text, 300 B, a stream ending in a corrupt-input error, a truncated stream, streams cut inside a dynamic header / inside a stored block's length field / inside its payload, a 70 KB stored stream} x read history in {nothing read, 1 byte, 10 bytes, all but the last byte, to the end/error} x Read size {1 MiB, 7}; then Reset(second source [, dictionary]); " +
+		Rule: "first life: a stream in {70 KB text, 300 B, a stream ending in a corrupt-input error, a truncated stream, streams cut inside a dynamic header / inside a stored block's length field / inside its payload, a 70 KB stored stream} x read history in {nothing read, 1 byte, 10 bytes, all but the last byte, to the end/error, exactly 65535 / 65536 bytes (output window full)} x Read size {1 MiB, 7}; then Reset(second source [, dictionary]); " +
 			"second life: every stream of the short corpus, malformed streams whose back-references reach 1, 2, 100 and 32768 bytes before their own start, containers of the same kind, and for zlib every combination {first stream with/without dictionary} x {second with/without}; flate, gzip (also member stepping), zlib; second source plain, a 64-byte bufio, one byte per call, or one byte per call through a 16-byte bufio; " +
 			"oracle: bytes and kind of error of the second life identical to a fresh Reader on the same input; non-trivial = the first life decoded at least one byte",
 		Assumptions: []string{"a freshly constructed Reader is the reference model"},
@@ -104,7 +104,7 @@ func c13Harness(cfg *Cfg) func(x *mc.Exec) {
 	}
 	dictText := []byte("hello world, hello dictionary, hello again and again")
 	zl = append(zl, container{name: "zlib-dict-needed-but-missing", kind: RK{Kind: "zlib"}, bytes: zlibStream(dictText, 6, dict20)})
-	histories := []string{"nothing", "1 byte", "10 bytes", "all-but-last", "to-end"}
+	histories := []string{"nothing", "1 byte", "10 bytes", "all-but-last", "to-end", "65535 bytes", "65536 bytes (output window full)"}
 	pols := []env.ReadPolicy{env.PolicyAll, env.Policy7}
 	firstRead := func(r io.Reader, hist int, total int) {
 		buf := make([]byte, 4096)
@@ -128,6 +128,12 @@ func c13Harness(cfg *Cfg) func(x *mc.Exec) {
 			}
 		case 4:
 			io.Copy(io.Discard, r)
+		case 5, 6:
+			n := 65530 + hist
+			if n > total {
+				n = total
+			}
+			io.CopyN(io.Discard, r, int64(n))
 		}
 	}
 	mkSrc := func(data []byte, viaBufio int) io.Reader {
